@@ -132,8 +132,10 @@ theorem C08_blocks_hold_step {h : List Ev} {s s' : State} {e : Ev} (hr : run ini
   | unblock b =>
     simp only [step?] at he
     split at he
+    · split at he
+      · injection he with he; subst he; exact ⟨fun h => ⟨h, rfl⟩, base⟩
+      · cases he
     · injection he with he; subst he; exact ⟨fun h => ⟨h, rfl⟩, base⟩
-    · cases he
   | syncBegin q => simp only [step?] at he; split at he <;> simp_all
   | snapshot q => simp only [step?] at he; split at he <;> simp_all
   | activate q => simp only [step?] at he; split at he <;> simp_all
@@ -147,6 +149,49 @@ theorem C08_blocks_hold_step {h : List Ev} {s s' : State} {e : Ev} (hr : run ini
       · subst hpq; simp
       · simpa [setP, hpq] using base
     · cases he
+
+/-- **Unblock is idempotent.** `Unblock()` is documented "safe to call multiple times": once a
+    block has been released, releasing it again changes nothing — in particular it does not
+    release anybody else's block … -/
+theorem C08_unblock_idempotent {h : List Ev} {s s₁ : State} (hr : run init h = some s)
+    (b : Bid) (h1 : step? s (.unblock b) = some s₁) :
+    step? s₁ (.unblock b) = some s₁ := by
+  have g := good_run hr
+  have hnot : b ∉ s₁.holding := by
+    simp only [step?] at h1
+    split at h1
+    · split at h1
+      · injection h1 with h1; subst h1
+        exact fun hm => (List.Nodup.mem_erase_iff g.holdNodup).1 hm |>.1 rfl
+      · cases h1
+    · rename_i hb; injection h1 with h1; subst h1; exact hb
+  simp [step?, hnot]
+
+/-- … a release of a block that is not held (already released, or never taken) is a no-op in
+    every state, so the other holders keep their blocks … -/
+theorem C08_unblock_released_noop (s : State) (b : Bid) (hb : b ∉ s.holding) :
+    step? s (.unblock b) = some s := by
+  simp [step?, hb]
+
+/-- … and a (first) release removes exactly that block: every other held block is still held,
+    hence `C08_blocks_hold` keeps protecting the other holders. -/
+theorem C08_unblock_others_keep {h : List Ev} {s s₁ : State} (hr : run init h = some s)
+    (b b' : Bid) (h1 : step? s (.unblock b) = some s₁) (hne : b' ≠ b) (hb' : b' ∈ s.holding) :
+    b' ∈ s₁.holding ∧ s₁.writer = none ∧
+      ∀ p, (s₁.pl p).phase ≠ .syncing ∧ (s₁.pl p).phase ≠ .snapped := by
+  have hr1 : run init (h ++ [.unblock b]) = some s₁ := by
+    simp [run_append, hr, run, h1]
+  have hm : b' ∈ s₁.holding := by
+    simp only [step?] at h1
+    split at h1
+    · split at h1
+      · injection h1 with h1; subst h1; exact (List.mem_erase_of_ne hne).2 hb'
+      · cases h1
+    · injection h1 with h1; subst h1; exact hb'
+  have hpos : s₁.readers > 0 := by
+    simp only [State.readers]
+    exact List.length_pos_of_mem hm
+  exact ⟨hm, C08_blocks_hold hr1 hpos⟩
 
 /-- **Progress.** From every reachable state with no block held, an idle (pending) plugin can
     complete its registration — whoever occupies the exclusive section at that moment can leave
@@ -177,7 +222,10 @@ theorem C08_progress_after_last_unblock {h : List Ev} {s : State} (hr : run init
     (p : Pid) (hp : (s.pl p).phase = .idle) :
     ∃ h' s', run s (.unblock b :: h') = some s' ∧ (s'.pl p).phase = .active := by
   have e : step? s (.unblock b) = some { s with holding := [] } := by
-    simp only [step?, hb, List.mem_singleton, true_and, List.erase_cons_head]; rw [if_pos hdone]
+    have h1 : b ∈ s.holding := by rw [hb]; exact List.mem_cons_self
+    simp only [step?]
+    rw [if_pos h1, if_pos hdone]
+    simp [hb]
   have hr1 : run init (h ++ [.unblock b]) = some { s with holding := [] } := by
     simp [run_append, hr, run, e]
   obtain ⟨s', h1, ha, _⟩ := C08_progress hr1 (by simp [State.readers]) p hp
@@ -217,6 +265,12 @@ example : ∃ s, run init demo = some s ∧ (s.pl 7).phase = .active ∧ s.store
     plugin is being synchronised -/
 example : run init [.block 0, .syncBegin 7] = none := by decide
 example : run init [.syncBegin 7, .block 0] = none := by decide
+/-- the realistic double release `b := BlockPluginSync(); defer b.Unblock(); …; b.Unblock()`
+    while another goroutine is mid-creation under its own block: accepted, the other block is
+    still held afterwards, and a synchronisation is still refused -/
+example : ∃ s, run init [.block 0, .block 1, .record 1 5, .unblock 0, .unblock 0] = some s ∧
+    s.holding = [1] ∧ run s [.syncBegin 7] = none :=
+  ⟨_, rfl, by decide, by decide⟩
 /-- … and refuses releasing a block that has a creation half done (the proviso) -/
 example : run init [.block 0, .relay 0 1, .unblock 0] = none := by decide
 
